@@ -241,6 +241,34 @@ pub fn c04_from_iter<const N: usize, const L: usize>() {
     done(panicked);
 }
 
+/// From<[(K,V);N]> / From<[T;N]> with a panicking comparison or destructor: the array, the half-built container and the
+/// pair in flight must never own the same object twice
+pub fn c04_from_array<const N: usize>() {
+    tok::reset();
+    let mut ks = [0u8; N];
+    let mut i = 0;
+    while i < N { ks[i] = vf::any_u8(); i += 1; }
+    let as_set = vf::any_bool();
+    let mut out: Option<Map<Tok, Tok, N>> = None;
+    let mut outs: Option<Set<Tok, N>> = None;
+    let panicked = if as_set {
+        let arr: [Tok; N] = core::array::from_fn(|i| Tok::new(ks[i]));
+        arm();
+        let os = &mut outs;
+        vf::catch(move || { *os = Some(Set::from(arr)); })
+    } else {
+        let arr: [(Tok, Tok); N] = core::array::from_fn(|i| (Tok::new(ks[i]), Tok::new(i as u8)));
+        arm();
+        let o = &mut out;
+        vf::catch(move || { *o = Some(Map::from(arr)); })
+    };
+    if let Some(m) = out.as_mut() { survivor(m); }
+    if let Some(s) = outs.as_mut() { survivor_set(s); }
+    drop(out);
+    drop(outs);
+    done(panicked);
+}
+
 /// Set::extend with a panicking source / comparison / overflow: the set keeps what was inserted so far
 pub fn c04_set_extend<const N: usize, const L: usize>() {
     tok::reset();
@@ -405,6 +433,7 @@ harnesses! {
     c04_lookup: [1] [2] [3];
     c04_entry: [1] [2] [3];
     c04_from_iter: [0, 2] [1, 2] [2, 3] [3, 4];
+    c04_from_array: [2] [3];
     c04_set_extend: [1, 2] [2, 3] [3, 3];
     c04_set_ops: [0] [1] [2] [3];
     c04_set_algebra: [1, 1] [2, 2] [3, 2];
@@ -420,6 +449,7 @@ harnesses! {
     c04_lookup: [4] [5];
     c04_entry: [4] [5];
     c04_from_iter: [4, 5] [3, 5];
+    c04_from_array: [4] [5];
     c04_set_extend: [4, 4];
     c04_set_ops: [4] [5];
     c04_set_algebra: [3, 3] [4, 2];
